@@ -776,6 +776,7 @@ func ruleC17Main(p *Prog, r *Result) {
 func ruleStructuralEquality(rule string, pkgs ...string) func(p *Prog, r *Result) {
 	return func(p *Prog, r *Result) {
 		nDeep, nOwn := 0, 0
+		perPkg := map[string]int{}
 		for _, fn := range p.Funcs {
 			pk := fnPkg(fn)
 			if pk == nil {
@@ -815,10 +816,25 @@ func ruleStructuralEquality(rule string, pkgs ...string) func(p *Prog, r *Result
 					selfRec = true
 				}
 			}
-			if !selfRec {
+			direct := false
+			for _, cs := range allCalls(append([]*ssa.Function{fn}, allAnon(fn)...)) {
+				if cs.Callee == fn {
+					direct = true
+				}
+			}
+			if !selfRec || !direct {
+				// a comparison that is not a structural walk of its own: wrapping reflect.DeepEqual is fine, but one that
+				// asks another function of the tool (typically "diff(a, b) == nil") inherits that function's notion of
+				// sameness — and the tools' own relations ignore order and multiplicity of list entries (seed C15-l/C16-l)
+				for _, cs := range allCalls([]*ssa.Function{fn}) {
+					if cs.Callee != nil && cs.Callee != fn && p.InRepo(cs.Callee) {
+						r.Fail(rule, p.FuncName(fn)+" / entry comparison", p.Pos(fn.Pos()), "a two-value comparison is derived from "+p.FuncName(cs.Callee)+" instead of being a structural equality (reflect.DeepEqual or a checked hand-written walk): whatever that function treats as \"no difference\" (lists equal as sets) now counts as the same entry")
+					}
+				}
 				continue
 			}
 			nOwn++
+			perPkg[shortPkg(pk.Pkg.Path())]++
 			pr := newPSRule(p, r, rule, p.FuncName(fn), PSOpts{})
 			a, b := fn.Params[0], fn.Params[1]
 			isP := func(par *ssa.Parameter) TM {
@@ -853,6 +869,22 @@ func ruleStructuralEquality(rule string, pkgs ...string) func(p *Prog, r *Result
 					return false, "the comparison answers true after looking at the entries of one side only: a " + kind + " that lacks (or has additional) entries counts as equal, so an entry that lost or gained a key is treated as unchanged"
 				})
 			}
+		}
+		for _, w := range pkgs {
+			n := 0
+			for _, fn := range p.Funcs {
+				if pk := fnPkg(fn); pk != nil && shortPkg(pk.Pkg.Path()) == w {
+					for _, cs := range allCalls([]*ssa.Function{fn}) {
+						if cs.Name == "reflect.DeepEqual" {
+							n++
+						}
+					}
+				}
+			}
+			perPkg[w] += n
+		}
+		for _, w := range pkgs {
+			r.Floor(rule, w+": entry comparisons (reflect.DeepEqual or a checked hand-written equality)", perPkg[w], 1)
 		}
 		r.Count("deepequal_sites", nDeep)
 		r.Count("hand_written_comparisons", nOwn)
